@@ -135,9 +135,11 @@ func Run(job Job, scratch string) (res Result) {
 		return
 	}
 	defer os.RemoveAll(dir)
-	if err := os.WriteFile(filepath.Join(dir, "Taskfile.yml"), []byte(p.Taskfile()), 0o644); err != nil {
-		res.SetupErr = err.Error()
-		return
+	for fn, txt := range p.Files() {
+		if err := os.WriteFile(filepath.Join(dir, fn), []byte(txt), 0o644); err != nil {
+			res.SetupErr = err.Error()
+			return
+		}
 	}
 	if job.Procs > 0 {
 		defer runtime.GOMAXPROCS(runtime.GOMAXPROCS(job.Procs))
@@ -238,11 +240,12 @@ func Run(job Job, scratch string) (res Result) {
 		case "B", "E":
 			x := parseProbe(ev.ID)
 			x.E = ev.E
+			x.T = p.Canon(x.T)
 			res.Trace = append(res.Trace, x)
 		case "GB", "GE":
 			f := strings.Split(strings.TrimSuffix(strings.ReplaceAll(ev.ID, "#dup", ""), "\n"), "|")
 			if len(f) >= 5 {
-				res.Trace = append(res.Trace, Ev{E: ev.E, Msg: f[1], P: f[2], T: f[3], V: f[4]})
+				res.Trace = append(res.Trace, Ev{E: ev.E, Msg: f[1], P: f[2], T: p.Canon(f[3]), V: f[4]})
 			}
 		case "Q":
 			var ks []string
@@ -250,7 +253,9 @@ func Run(job Job, scratch string) (res Result) {
 				if strings.HasPrefix(id, "G|") {
 					continue
 				}
-				ks = append(ks, parseProbe(id).Key())
+				x := parseProbe(id)
+				x.T = p.Canon(x.T)
+				ks = append(ks, x.Key())
 			}
 			res.Trace = append(res.Trace, Ev{E: "Q", Set: ks})
 		case "DL":
@@ -279,8 +284,10 @@ func RunCLI(p *Program, exitCode bool) (int, string, error) {
 		return 0, "", err
 	}
 	defer os.RemoveAll(dir)
-	if err := os.WriteFile(filepath.Join(dir, "Taskfile.yml"), []byte(p.Taskfile()), 0o644); err != nil {
-		return 0, "", err
+	for fn, txt := range p.Files() {
+		if err := os.WriteFile(filepath.Join(dir, fn), []byte(txt), 0o644); err != nil {
+			return 0, "", err
+		}
 	}
 	r := p.Roots[0]
 	args := []string{r.Task, "P=r1"}
